@@ -89,7 +89,12 @@ func (man *chunkManager) OnChunkConsumed(chunk base.LogChunk) {
 
 func (man *chunkManager) OnChunkLeftover(chunk base.LogChunk) {
 	man.logger.Debugf("save leftover id=%s len=%d", chunk.ID, len(chunk.Data))
-	man.operator.UnloadChunk(&chunk)
+	if !man.operator.UnloadChunk(&chunk) {
+		// cannot be kept for the next start (space limit, write error or no directory): it is lost and has to be counted as such
+		man.logger.Warnf("drop leftover chunk which cannot be saved: id=%s len=%d", chunk.ID, len(chunk.Data))
+		man.OnChunkDropped(chunk)
+		return
+	}
 	man.metrics.pendingChunks.Dec()
 	man.metrics.leftoverChunksTotal.Inc()
 }
